@@ -257,6 +257,12 @@ pub fn run(mon: &dyn Monitor, cfg: &RunCfg) -> i32 {
                                 );
                             }
                             for v in out.violations {
+                                if !a.violations.contains_key(&v.signature) {
+                                    // first witness of this signature: the replay file is written at once and
+                                    // noted in the journal, so that it survives if the run is cut short later
+                                    // (a case that never returns, a crash, the watchdog)
+                                    early_witness(id, cfg, &v.signature, &v.detail, label, &out.case);
+                                }
                                 let e = a
                                     .violations
                                     .entry(v.signature.clone())
@@ -441,6 +447,40 @@ pub fn run(mon: &dyn Monitor, cfg: &RunCfg) -> i32 {
         return 2;
     }
     0
+}
+
+/// replay file name of a signature first seen in `label`
+fn replay_name(cfg: &RunCfg, id: &str, label: &str, sig: &str) -> String {
+    format!(
+        "{}/replays/{id}-s{}-{}-{:08x}.json",
+        cfg.verif_root,
+        cfg.seed,
+        sanitize(label),
+        crate::rng::hash_bytes(sig.as_bytes()) as u32
+    )
+}
+
+fn early_witness(id: &str, cfg: &RunCfg, sig: &str, detail: &str, label: &str, case: &Json) {
+    if std::env::var("VERIF_JOURNAL").is_err() {
+        return;
+    }
+    let known = load_known(&format!("{}/known_findings.json", cfg.verif_root));
+    if known.iter().any(|k| k.status == "known" && k.property == id && k.signature == sig) {
+        return;
+    }
+    let _ = std::fs::create_dir_all(format!("{}/replays", cfg.verif_root));
+    let fname = replay_name(cfg, id, label, sig);
+    let rj = Json::obj()
+        .set("property", Json::s(id))
+        .set("tier", Json::s(cfg.tier.name()))
+        .set("seed", Json::u(cfg.seed))
+        .set("label", Json::s(label))
+        .set("signature", Json::s(sig))
+        .set("occurrences", Json::u(1))
+        .set("detail", Json::s(detail))
+        .set("case", case.clone());
+    let _ = std::fs::write(&fname, rj.to_pretty());
+    journal(&format!("WITNESS {fname} {sig}"));
 }
 
 /// crash journal: if the process dies (stack overflow, abort) the driver finds the cases that were in
